@@ -32,7 +32,7 @@ FACTORY = ['T21', 'T31', 'T42', 'T85', 'T106', 'T119', 'T170', 'T213', 'T340', '
 
 
 def bounds(tier):
-  return dict(shapes='with_wavenumbers(M<=%d, linear|quadratic|cubic) + construct(k<=6,n<=6) + 4 hand-picked' % (8 if tier == 'quick' else 16),
+  return dict(shapes='with_wavenumbers(M<=%d, linear|quadratic|cubic) + construct(k<=6,n<=6) + 6 hand-picked (two trapezoidal, L >= M+3)' % (8 if tier == 'quick' else 16),
               spacings=list(harness.SPACINGS), implementations='real + fast(base_shape_multiple 1..4 x stacked x reverse)',
               radii=[1.0, 2.5], offsets=[0.0, 0.3], leading_axes=['(n,)', '(1,n)', '(2,n/2) or (3,n/3)'],
               factory_grids=FACTORY if tier == 'thorough' else FACTORY[:3] + FACTORY[10:12],
@@ -96,7 +96,14 @@ def _grid_unit(unit, rec):
     rec.case(key, transitions=2 * n, outcome=nodal.tobytes() + back.tobytes(),
              sample={'shape(M,L,nlon,nlat)': stag, 'spacing': sp, 'impl': tag, 'modal_shape': list(ms), 'basis_vectors': n})
     gmask = np.asarray(g.mask, dtype=bool)
-    flat_mask = gmask.reshape(-1)
+    # the mask itself is part of the observable interface: it must mark exactly the triangular truncation (reference
+    # mask re-indexed to this layout; structural-zero row and every padded position False), not merely be consistent
+    # with what the transforms drop
+    want_mask = harness.from_real_layout(mask_real.astype(float), g, impl).astype(bool)
+    rec.check(gmask.shape == want_mask.shape and bool(np.array_equal(gmask, want_mask)), 'mask_is_the_triangular_truncation', key,
+              {'differing_positions': np.argwhere(gmask != want_mask)[:6].tolist() if gmask.shape == want_mask.shape else 'shape'})
+    flat_mask = want_mask.reshape(-1)
+    gmask = want_mask
     # (iv) masked / padded inputs produce exactly zero nodal output; nodal padding is exactly zero
     rec.zero(nodal[~flat_mask], site='masked_input_gives_zero_field', key=key)
     rec.zero(nodal[:, nlon:, :], site='nodal_padding_zero', key=key)
